@@ -518,7 +518,17 @@ theorem applyOp_invZ (s : W) (op : Op) (a : ZInv s) (henv : EnvOK s op) : ZInv (
   | writeMessage t data dnp fullp dn full => exact writeMessage_invZ s t data dnp fullp dn full a henv
   | writeJSON enc dnp fullp dn full => exact writeJSON_invZ s enc dnp fullp dn full a henv
   | writeControl t data d => exact a.congr (key_writeControl s t data d) (wl_writeControl s t data d)
-  | writePrepared t img => exact a.congr (key_writePreparedImage s t img) (wl_writePreparedImage s t img)
+  | writePrepared t img dnp fullp =>
+    have henv' : isData t = true → PrevEnvOK s dnp fullp := henv
+    have hp : ZInv (if isData t = true then closePrev s dnp fullp else s) := by
+      split
+      · rename_i ht; exact (closePrev_invZ s dnp fullp a (henv' ht)).1
+      · exact a
+    refine hp.congr (key_writePreparedImage s t img dnp fullp) ?_
+    refine (wl_writePreparedImage s t img dnp fullp).trans ?_
+    split
+    · exact (wl_closePrev s dnp fullp).symm
+    · rfl
   | setWriteDeadline d =>
     have hk : key (applyOp s (.setWriteDeadline d)).2 = key s := rfl
     exact a.congr hk rfl
